@@ -945,8 +945,18 @@ class Fn:
     _IS_VARIANT = {"is_ok": ("std::result::Result", "Ok", "Err"), "is_err": ("std::result::Result", "Err", "Ok"),
                    "is_some": ("std::option::Option", "Some", "None"), "is_none": ("std::option::Option", "None", "Some")}
 
-    def edges_of_value_variant(self, want_origins, variant):
+    _CONVERSIONS = {"ok": {"Ok": "Some", "Err": "None"}, "err": {"Err": "Some", "Ok": "None"},
+                    "ok_or": {"Some": "Ok", "None": "Err"}, "ok_or_else": {"Some": "Ok", "None": "Err"}}
+
+    def edges_of_value_variant(self, want_origins, variant, _depth=0):
         out = set()
+        if _depth < 2 and want_origins:
+            # `x.ok()?`, `x.err()`, `o.ok_or(e)?`: the converted value is tested instead of x
+            for cs in self.calls:
+                m = self._CONVERSIONS.get(cs.name)
+                if m and variant in m and cs.args and cs.path.startswith(("std::result::Result::", "std::option::Option::")) \
+                        and cs.bb in self.live and self._op_origins(cs.args[0], (), frozenset()) == want_origins:
+                    out |= self.edges_of_value_variant({(("call", self.id, cs.bb, cs.path),)}, m[variant], _depth + 1)
         for bb in self.live:
             info = self.switch_info(bb)
             if info and info["kind"] == "call":
